@@ -461,20 +461,42 @@ func checkCacheMissLoadsSameAddress(c *Ctx, rule string) {
 		if len(loads) == 0 {
 			continue
 		}
-		// the address whose script address keys the cache lookup in this function
-		var keyed []ssa.Value
-		for _, b := range fn.Blocks {
-			for _, ins := range b.Instrs {
-				lk, ok := ins.(*ssa.Lookup)
-				if !ok {
-					continue
+		// the address whose script address keys the cache lookup in this function (or in a private part it hands the
+		// address to: the argument at that call then is the keyed address)
+		keyedIn := func(f *ssa.Function) []ssa.Value {
+			var out []ssa.Value
+			for _, b := range f.Blocks {
+				for _, ins := range b.Instrs {
+					lk, ok := ins.(*ssa.Lookup)
+					if !ok {
+						continue
+					}
+					if _, fld, _, okf := fieldOf(stripConv(lk.X)); !okf || fld != "addrs" {
+						continue
+					}
+					for _, o := range (&Slicer{P: p}).Origins(lk.Index) {
+						if call, ok := o.(*ssa.Call); ok && call.Call.IsInvoke() && call.Call.Method.Name() == "ScriptAddress" {
+							out = append(out, stripConv(call.Call.Value))
+						}
+					}
 				}
-				if _, f, _, okf := fieldOf(stripConv(lk.X)); !okf || f != "addrs" {
-					continue
-				}
-				for _, o := range (&Slicer{P: p}).Origins(lk.Index) {
-					if call, ok := o.(*ssa.Call); ok && call.Call.IsInvoke() && call.Call.Method.Name() == "ScriptAddress" {
-						keyed = append(keyed, stripConv(call.Call.Value))
+			}
+			return out
+		}
+		keyed := keyedIn(fn)
+		for _, ci := range callsOf(fn) {
+			cc, ok := ci.(*ssa.Call)
+			if !ok {
+				continue
+			}
+			g := cc.Call.StaticCallee()
+			if g == nil || g == fn || len(g.Blocks) == 0 || fnPkgPath(g) != fnPkgPath(fn) || g.Object() == nil || g.Object().Exported() {
+				continue
+			}
+			for _, kv := range keyedIn(g) {
+				if prm, isPrm := kv.(*ssa.Parameter); isPrm {
+					if i := paramIndex(g, prm); i >= 0 && i < len(cc.Call.Args) {
+						keyed = append(keyed, stripConv(cc.Call.Args[i]))
 					}
 				}
 			}
